@@ -411,6 +411,28 @@ example :
      getDl s' false = true) := by decide
 
 
+/-- **reconnection reaches every upstream address.** Whatever the state of the round-robin position, among any
+    `len(addrs)` consecutive reconnect attempts of a sender every address of its pool is dialled: a sender whose pool holds
+    a live upstream finds it within `len(addrs)` attempts (`ReconnectDelay` apart), however many of the others are down. -/
+theorem pick_visits_all (p : AddrPool) (hh : p.head < p.addrs.length) (j : Nat) (hj : j < p.addrs.length) :
+    (some (p.addrs[j]?)) ∈ (pickN p.addrs.length p).map some := by
+  have hl : 0 < p.addrs.length := by omega
+  -- attempt number k = (j + len - head) mod len dials address j
+  let k := (j + p.addrs.length - p.head) % p.addrs.length
+  have hk : k < p.addrs.length := Nat.mod_lt _ hl
+  have hidx : (p.head + k) % p.addrs.length = j := by
+    show (p.head + (j + p.addrs.length - p.head) % p.addrs.length) % p.addrs.length = j
+    rw [Nat.add_mod_mod]
+    have : p.head + (j + p.addrs.length - p.head) = j + p.addrs.length := by omega
+    rw [this, Nat.add_mod_right, Nat.mod_eq_of_lt hj]
+  have h := pick_kth p hh k p.addrs.length hk
+  rw [hidx] at h
+  simp only [List.mem_map]
+  exact ⟨p.addrs[j]?, List.mem_of_getElem? h, rfl⟩
+
+/-- non-vacuity, and the seeded value-receiver bug in one line: the real pool [dead, dead, live] with head 1 dials 1, 2, 0 -/
+example : pickN 3 { addrs := [10, 11, 12], head := 1 } = [some 11, some 12, some 10] := by decide
+
 /-
   Full statement of C31 and what is NOT proved here (kept as a comment; the check is labelled partial):
 
@@ -420,7 +442,8 @@ example :
   rest is offered again immediately (`write_error_skips_exactly_one`, `callback_contract`); no wake-up is ever lost
   (`never_stuck`); a write blocked by a stalled upstream is ended by the armed write deadline (`stalled_write_released`);
   every pending dropped byte is reported exactly once within one scheduled loop iteration of the primary sender on a live
-  connection (`drops_counted_and_reported`); acceptance order is kept per sender across failovers and no packet is taken by
+  connection (`drops_counted_and_reported`); a sender's reconnect attempts go round its whole address pool
+  (`pick_visits_all`); acceptance order is kept per sender across failovers and no packet is taken by
   both senders (`pool_fifo_across_failover`, `failover_spec`).
   Not proved: the real-time length of a timer period (time.AfterFunc 1 s, WriteTimeout) and of a write; sendLoop's
   reconnect loop itself (ReconnectDelay, DialTimeout, address rotation) — measured by the live tier of the harness with
